@@ -10,10 +10,15 @@ import (
 
 // C14 — references resolve lexically; inlining a reference never changes behaviour.
 //
-//	(c14 ENV SCHEMA (order "ns"...) INLINED (ops OP...))
+//	(c14 ENV SCHEMA (order|order-so "ns"...) INLINED (ops OP...))
 //	    ENV carries the external namespaces (ns -> object table); SCHEMA is built through the public
 //	    constructors (NewScopeSchema links the self namespace), then the namespaces are applied in the
 //	    given order, then once more on a fresh build in the reverse order.
+//	    order-so: the scope is wrapped in a StepOutputSchema (schema.NewStepOutputSchema) and the namespaces
+//	    are applied, and ValidateReferences is asked, THROUGH that step output; the reverse-order run applies
+//	    them to the scope directly (the metamorphic partner of the wrapper).
+//	    OP = (u RAW) | (rt RAW) | (vs NATIVE): Validate and Serialize of a native value (e.g. one that carries
+//	    the field of a DISABLED property: Unserialize refuses those, Validate / Serialize still go through its type).
 //	    INLINED is SCHEMA with every non-recursive self-namespace reference replaced by its target.
 //	observation:
 //	    (r (st LINKS VR)            after construction
@@ -82,7 +87,18 @@ func c14Walk(t schema.Type, path string, stack []c14Frame, exts map[string]*sche
 	}
 }
 
+// c14Applier: what ApplyNamespace / ValidateReferences are called on — the schema itself, or the
+// StepOutputSchema that wraps it.
+type c14Applier interface {
+	ApplyNamespace(objects map[string]*schema.ObjectSchema, namespace string)
+	ValidateReferences() error
+}
+
 func c14State(s schema.Type, exts map[string]*schema.ScopeSchema) *sx.Node {
+	return c14StateVia(s, s, exts)
+}
+
+func c14StateVia(s schema.Type, via c14Applier, exts map[string]*schema.ScopeSchema) *sx.Node {
 	var links []c14Link
 	c14Walk(s, "", nil, exts, &links)
 	sort.Slice(links, func(i, j int) bool { return links[i].path < links[j].path })
@@ -101,7 +117,7 @@ func c14State(s schema.Type, exts map[string]*schema.ScopeSchema) *sx.Node {
 				vr = "panic"
 			}
 		}()
-		if err := s.ValidateReferences(); err != nil {
+		if err := via.ValidateReferences(); err != nil {
 			vr = "err"
 		}
 	}()
@@ -119,6 +135,10 @@ func c14Exts(envN *sx.Node) map[string]*schema.ScopeSchema {
 
 // c14Apply applies the namespaces in order; it returns the states and whether every application returned.
 func c14Apply(s schema.Type, exts map[string]*schema.ScopeSchema, order []string) (states []*sx.Node, ok bool) {
+	return c14ApplyVia(s, s, exts, order)
+}
+
+func c14ApplyVia(s schema.Type, via c14Applier, exts map[string]*schema.ScopeSchema, order []string) (states []*sx.Node, ok bool) {
 	for _, ns := range order {
 		panicked := false
 		func() {
@@ -127,12 +147,12 @@ func c14Apply(s schema.Type, exts map[string]*schema.ScopeSchema, order []string
 					panicked = true
 				}
 			}()
-			s.ApplyNamespace(exts[ns].Objects(), ns)
+			via.ApplyNamespace(exts[ns].Objects(), ns)
 		}()
 		if panicked {
 			return append(states, sx.A("panic")), false
 		}
-		states = append(states, c14State(s, exts))
+		states = append(states, c14StateVia(s, via, exts))
 	}
 	return states, true
 }
@@ -157,6 +177,9 @@ func c14Ops(s schema.Type, ops *sx.Node, head string) *sx.Node {
 				rt.Append(c14Strip(se))
 			}
 			res.Append(rt)
+		case "vs":
+			se, _, _ := obsSerialize(s, v)
+			res.Append(sx.L(sx.A("vs"), c14Strip(obsValidate(s, v)), c14Strip(se)))
 		default:
 			res.Append(sx.L(sx.A("bad"), sx.S("op")))
 		}
@@ -210,8 +233,16 @@ func runC14(p *sx.Node) *sx.Node {
 	if s == nil {
 		return sx.L(sx.A("r"), sx.A("build-panic"))
 	}
-	out := sx.L(sx.A("r"), c14State(s, exts))
-	states, ok := c14Apply(s, exts, order)
+	// order-so: everything that links or asks about links goes through a step output wrapping the scope
+	wrap := func(x schema.Type) c14Applier {
+		if sc, isScope := x.(*schema.ScopeSchema); isScope && orderN.Head() == "order-so" {
+			return schema.NewStepOutputSchema(sc, nil, false)
+		}
+		return x
+	}
+	via := wrap(s)
+	out := sx.L(sx.A("r"), c14StateVia(s, via, exts))
+	states, ok := c14ApplyVia(s, via, exts, order)
 	out.Append(states...)
 	// the reverse order on a fresh build
 	s2 := build(sN)
@@ -235,7 +266,7 @@ func runC14(p *sx.Node) *sx.Node {
 	if si == nil {
 		return out.Append(sx.L(sx.A("inl"), sx.A("build-panic")))
 	}
-	if _, ok3 := c14Apply(si, exts, order); !ok3 {
+	if _, ok3 := c14ApplyVia(si, wrap(si), exts, order); !ok3 {
 		return out.Append(sx.L(sx.A("inl"), sx.A("panic")))
 	}
 	return out.Append(c14Ops(si, opsN, "inl"))
@@ -339,7 +370,13 @@ func (g *c14gen) scope(depth int, top bool) *sx.Node {
 		var ps []propD
 		names := []string{"a", "b", "c", "xs"}
 		for j := 0; j < np; j++ {
-			ps = append(ps, propD{name: names[j], t: g.typ(depth), required: j == 0 && r.Chance(40)})
+			p := propD{name: names[j], t: g.typ(depth), required: j == 0 && r.Chance(40)}
+			// a DISABLED property (with or without a reason): Unserialize refuses it, but its type is still linked,
+			// still visited by ValidateReferences and still used by Validate / Serialize
+			if !p.required && r.Chance(8) {
+				p.disabled, p.noReason = true, r.Chance(35)
+			}
+			ps = append(ps, p)
 		}
 		ps = append(ps, propD{name: "tag", t: dString(nil, nil, nil)})
 		objs = append(objs, dObject(id, false, ps...))
@@ -460,6 +497,63 @@ func orderSx(ns ...string) *sx.Node {
 	return o
 }
 
+// throughStepOutput: the same order, applied through a StepOutputSchema wrapping the scope.
+func throughStepOutput(order *sx.Node) *sx.Node {
+	o := sx.L(sx.A("order-so"))
+	o.Append(order.List[1:]...)
+	return o
+}
+
+// c14Enable: the descriptor with every property enabled (used only to MAKE native values that carry the
+// fields of disabled properties).
+func c14Enable(n *sx.Node) *sx.Node {
+	if !n.IsList() {
+		return n
+	}
+	out := sx.L()
+	for _, c := range n.List {
+		out.Append(c14Enable(c))
+	}
+	if n.Head() == "prop" && len(n.List) == 12 {
+		out.List[10], out.List[11] = sx.B(false), none()
+	}
+	return out
+}
+
+func c14HasDisabled(n *sx.Node) bool {
+	if !n.IsList() {
+		return false
+	}
+	if n.Head() == "prop" && len(n.List) == 12 && n.List[10].Atom == "1" {
+		return true
+	}
+	for _, c := range n.List {
+		if c14HasDisabled(c) {
+			return true
+		}
+	}
+	return false
+}
+
+// c14Native asks the SDK (all properties enabled, every namespace applied) for the native form of a raw value.
+func c14Native(ext, s, raw *sx.Node) (out *sx.Node) {
+	defer func() {
+		if recover() != nil {
+			out = nil
+		}
+	}()
+	twin := buildSchema(c14Enable(s))
+	for _, e := range ext.List {
+		scopeN := sx.L(sx.A("scope"), c14Enable(e.List[1]), sx.S(e.List[1].List[0].List[0].Str))
+		twin.ApplyNamespace(buildScope(scopeN).Objects(), e.List[0].Str)
+	}
+	v, err := twin.Unserialize(valFromSx(raw))
+	if err != nil {
+		return nil
+	}
+	return valSx(v)
+}
+
 func c14Case(ext, s *sx.Node, order *sx.Node, ops []*sx.Node) *sx.Node {
 	l := sx.L(sx.A("ops"))
 	l.Append(ops...)
@@ -502,6 +596,32 @@ func genC14(r *Rng, tier string, emit func(*sx.Node)) {
 	}
 	emit(c14Case(ext, containers, orderSx("n1", "n2"), contOps))
 	emit(c14Case(ext, containers, orderSx("n2", "n1"), contOps))
+	// the same through a StepOutputSchema wrapping the scope (the way a step's outputs hold their scopes)
+	emit(c14Case(ext, shadow, throughStepOutput(orderSx("n1", "n2")), shadowOps))
+	emit(c14Case(ext, shadow, throughStepOutput(orderSx("n2")), shadowOps[:3]))
+	emit(c14Case(ext, containers, throughStepOutput(orderSx("n2", "n1")), contOps))
+	// references under DISABLED properties (self and external namespace, bare and under a list), and native data that
+	// carries those fields: Validate / Serialize still go through the property's type
+	disabled := dScope("A",
+		dObject("A", false,
+			propD{name: "live", t: dRef("B", "")},
+			propD{name: "old", t: dRef("B", ""), disabled: true},
+			propD{name: "older", t: dList(dRef("B", ""), nil, nil), disabled: true, noReason: true},
+			propD{name: "x", t: dRef("X", "n2"), disabled: true}),
+		dObject("B", false, propD{name: "v", t: dInt(nil, nil, nil)}))
+	nB := func(v int64) *sx.Node { return vM(tStrMap, vS("v"), vI("i64", v)) }
+	disOps := []*sx.Node{
+		op("rt", vM(tAnyMap, vS("live"), vM(tAnyMap, vS("v"), vI("i64", 1)))),
+		op("rt", vM(tAnyMap, vS("old"), vM(tAnyMap, vS("v"), vI("i64", 1)))), // the disabled property is set: refused
+		op("vs", vM(tStrMap, vS("live"), nB(1))),
+		op("vs", vM(tStrMap, vS("live"), nB(1), vS("old"), nB(2))),
+		op("vs", vM(tStrMap, vS("older"), vSl(tAnySlice, nB(3), nB(4)))),
+		op("vs", vM(tStrMap, vS("x"), vM(tStrMap, vS("c"), vB(true)))),
+		op("vs", vM(tStrMap, vS("old"), vM(tStrMap, vS("v"), vS("not an int")))),
+	}
+	emit(c14Case(ext, disabled, orderSx("n1", "n2"), disOps))
+	emit(c14Case(ext, disabled, throughStepOutput(orderSx("n2", "n1")), disOps))
+	emit(c14Case(ext, disabled, orderSx("n1"), disOps[:5])) // n2 never applied: the disabled x stays unlinked, ValidateReferences must fail
 	// a one-of whose members live in an external namespace (the walk reads Properties() of every member)
 	oneofExt := dScope("A", dObject("A", false,
 		propD{name: "o", t: dOneOf(false, "kind", false, memberD{skey: "x", t: dRef("X", "n1")}, memberD{skey: "z", t: dRef("Z", "n2")})}))
@@ -551,9 +671,20 @@ func genC14(r *Rng, tier string, emit func(*sx.Node)) {
 				ops = append(ops, op("rt", mutate(r, v)))
 			}
 		}
+		if c14HasDisabled(s) {
+			// native values that carry the fields of the disabled properties
+			for j := 0; j < 3; j++ {
+				if nat := c14Native(ext, s, rawFor(r, s, sc, depth+2)); nat != nil {
+					ops = append(ops, op("vs", nat))
+				}
+			}
+		}
 		order := orderSx("n1", "n2")
 		if r.Bool() {
 			order = orderSx("n2", "n1")
+		}
+		if r.Bool() {
+			order = throughStepOutput(order)
 		}
 		emit(c14Case(ext, s, order, ops))
 	}
